@@ -64,7 +64,7 @@ def run(R, cfg, over=None):
     if not getattr(H, "RESET_INV", True):
         R.note(f"{cfg}: reset not encodable (harness RESET_INV=False); reset mask not checked")
         return
-    ctx, key, st, ts = D.inv_reset(R, H)
+    ctx, key, st, ts = D.inv_reset(R, H, prove_inv=False)
     obs = reset_mask(H, st, ts)
     for n, v in obs:
         def pred(s_np, ts_np, n=n):
